@@ -126,6 +126,10 @@ func (w *c19world) target(g *zsim.Stream, f *zsim.Stream) *c19target {
 			return c19sink{tt.sink, tt}, nil
 		}
 		t.raw = "zsim://" + name + "/x"
+		if t.kind == tkSim && g.Chance(4) {
+			t.raw = "z://" + name + "/x" // the same factory under a one-letter scheme
+			w.c.R.Probe("sink URL with a one-letter scheme")
+		}
 		if t.kind == tkUpperScheme {
 			t.raw = pick(g, "ZSIM", "Zsim", "zSiM") + "://" + name + "/x"
 		}
